@@ -32,7 +32,9 @@ SEPS = [None, None, ",", ";", "|", "\t"]
 NASTY = ["", " ", "x", "a b", " lead", "trail ", "\"", "q\"uo\"te", "'", "l1\nl2", "cr\rx", "crlf\r\ny",
          "é", "\U0001d11e", "tab\there", "com,ma", "semi;colon", "pi|pe", "\"\"", "end\n", "\\", "#c", "0",
          # characters str.splitlines() treats as line boundaries but the csv module does not
-         "ls\u2028x", "vt\x0bx", "ff\x0cx", "nel\x85x", "fs\x1cx"]
+         "ls\u2028x", "vt\x0bx", "ff\x0cx", "nel\x85x", "fs\x1cx",
+         # strings that data tools like to read as missing values or numbers
+         "nan", "NA", "None", "<NA>", "NULL", "1", "1.0", "-", "\ufeffbom"]
 PD_FUNCS = ["pd_compress", "pd_expand", "pd_standardize_prefix", "pd_standardize_curie", "pd_standardize_uri"]
 
 
@@ -54,7 +56,7 @@ class C16Machine(Machine):
            "target_column_last", "str_path", "pd_target_column", "later_row_also_fails",
            "result_missing_empty_cell", "target_cell_changed", "pd_missing_is_na", "pd_strict_raised",
            "zero_rows", "fault_in_other_column", "ambiguous_mode_converted_cell", "file_larger_than_8k", "table_ge_40_rows",
-           "eol_crlf", "eol_lf", "eol_mixed", "no_final_line_terminator", "sep_explicit_tab", "relative_path", "pd_target_is_source", "pd_dtype_object", "pd_dtype_string", "pd_dtype_category", "pd_int_labels", "pd_int_labels_not_positions", "file_flags_left_to_defaults", "pd_flags_left_to_defaults", "cell_convertible_only_after_extension", "fault_in_header", "cell_with_unicode_line_boundary",
+           "eol_crlf", "eol_lf", "eol_mixed", "no_final_line_terminator", "sep_explicit_tab", "relative_path", "pd_target_is_source", "pd_dtype_object", "pd_dtype_string", "pd_dtype_category", "pd_category_with_unused_categories", "pd_int_labels", "pd_int_labels_not_positions", "file_flags_left_to_defaults", "pd_flags_left_to_defaults", "cell_convertible_only_after_extension", "fault_in_header", "cell_with_unicode_line_boundary",
            "pd_index_custom", "pd_index_reversed", "pd_index_offset", "pd_index_duplicated", "pd_index_sliced"]
     )
 
@@ -310,6 +312,7 @@ class C16Machine(Machine):
                          "target_column": target, "strict": rng.random() < 0.3, "passthrough": rng.random() < 0.5,
                          "ambiguous": pamb, "omit_defaults": rng.random() < 0.5,
                          "dtype": rng.choice(["default", "default", "object", "string", "category"]),
+                         "unused_categories": rng.random() < 0.5,
                          "index": rng.choice(["range", "range", "range", "custom", "reversed", "offset", "duplicated", "sliced"])})
         plan.extend(pd_ops)
         if cfg.get("extend") and self.conv.records:
@@ -658,7 +661,16 @@ class C16Machine(Machine):
         if dt != "default" and len(rows):
             # the same string cells under the other dtypes a column of strings comes in: object (every
             # pandas before 3), the nullable "string" dtype, and category (read_csv(dtype="category"))
-            df = df.astype({c: dt for c in names})
+            if dt == "category" and op.get("unused_categories"):
+                # a categorical that was filtered after the cast: it has categories no cell uses,
+                # and one of them is not convertible
+                extra = pd.DataFrame([[f"unused{j}" for j in range(len(names))]], columns=names,
+                                     index=[df.index[-1]] if len(df.index) else None)
+                big = pd.concat([df, extra]).astype({c: dt for c in names})
+                df = big.iloc[:-1]
+                self.probe("pd_category_with_unused_categories")
+            else:
+                df = df.astype({c: dt for c in names})
             self.probe("pd_dtype_" + dt)
         orig = df.copy(deep=True)
         scalar = scalar_for(conv, func, amb if func in ("pd_compress", "pd_expand") else False)
